@@ -557,8 +557,38 @@ def rule_flush(chk, prog, tier):
     r.exhaustive = True
 
 
+def rule_flush_all(chk, prog, tier):
+    r = chk.rule('C09.e', 'the end-of-unit flush defines every tentative definition that is still undefined, once, whatever the state of the identifiers declared before or after it', floor=30,
+                 oracle='C11 6.9.2p2')
+    fn = prog.require_func('emittentativedefns', 'decl.c')
+    for n in range(0, 5):
+        for flags in itertools.product((0, 1), repeat=n):
+            def runner(it):
+                objs = []
+                nxt = None
+                for k in reversed(range(n)):
+                    o = Obj('decl%d' % k, 'heap'); o.f[('defined',)] = flags[k]; o.f[('next',)] = nxt; o.idx = k
+                    nxt = Ptr(o, ()); objs.append(o)
+                g = it.gobj('tentativedefns', 'decl.c')
+                g.f[()] = nxt
+                def defineobj(i2, a, e):
+                    i2.event('define', a[0].obj.idx, a[1]); a[0].obj.f[('defined',)] = 1; return None
+                it.models['defineobj'] = defineobj
+                it.call(fn, [])
+                return [e_[1] for e_ in it.events if e_[0] == 'define'], [e_[2] for e_ in it.events if e_[0] == 'define']
+            runs = explore(prog, runner, {}, max_runs=4, on_unsupported='keep')
+            if len(runs) != 1 or runs[0].outcome != 'return':
+                raise AnalysisBroken('emittentativedefns %s: %s' % (flags, runs[0].outcome if runs else '?'))
+            got, inits = runs[0].value
+            want = [k for k in range(n) if not flags[k]]
+            r.instance(sorted(got) == want and all(x is None for x in inits), 'flush:%s' % ''.join('D' if f else 't' for f in flags) or 'flush:empty', 'decl.c:%s' % fn.get('line'),
+                       'tentative list (t = still tentative, D = defined meanwhile) %s: defines entries %s, must define %s with no initializer' % (''.join('D' if f else 't' for f in flags), got, want))
+    r.exhaustive = True
+
+
 def run(chk, tier):
     prog = facts.programs()['cproc-qbe']
     chk.guard('C09.b', lambda: rule_histories(chk, prog, tier))
     chk.guard('C09.c', lambda: rule_naming(chk, prog, tier))
     chk.guard('C09.d', lambda: rule_flush(chk, prog, tier))
+    chk.guard('C09.e', lambda: rule_flush_all(chk, prog, tier))
